@@ -378,3 +378,153 @@ func ruleCheckedNarrowing(p *Program, r *Report) {
 }
 
 func init() { register("C13", Rule{"R13c", ruleCheckedNarrowing}) }
+
+// R13d: an absent option keeps its default.  The codec constructors start from a default configuration
+// (newJSONEncodeConfig(): strict = true) and override fields from the caller's config tuple through comma-ok
+// getters.  Storing the getter's value while discarding its ok flag replaces a non-zero default by the zero value
+// whenever the option is absent — `//encoding.json.encoder(())` silently becomes a non-strict encoder and its output
+// no longer decodes to the value.  For every field store of the value result of a (T, bool) call whose bool is
+// unused: the field's default (a constant stored by the constructor the struct came from, or earlier in the same
+// function) must be the zero value.
+func ruleDefaultsSurviveAbsence(p *Program, r *Report) {
+	r.Begin("R13d", "option defaults survive absence: in package syntax, when the value result of a comma-ok getter (T, bool) is stored into a configuration field without consulting the bool, the field's default — set by the constructor the configuration came from or earlier in the function — is the zero value; otherwise an absent option silently flips a non-zero default (strict JSON encoding) off", 1)
+	defer r.End()
+	synPkg := p.Pkg("syntax")
+	// constant field defaults set by a constructor: callee -> field index -> constant
+	ctorDefaults := func(g *ssa.Function) map[int]*ssa.Const {
+		out := map[int]*ssa.Const{}
+		if g == nil || g.Blocks == nil {
+			return out
+		}
+		ForEachInstr(g, func(ins ssa.Instruction) {
+			st, ok := ins.(*ssa.Store)
+			if !ok {
+				return
+			}
+			fa, ok := st.Addr.(*ssa.FieldAddr)
+			if !ok {
+				return
+			}
+			if k, ok := st.Val.(*ssa.Const); ok {
+				out[fa.Field] = k
+			}
+		})
+		return out
+	}
+	isZero := func(k *ssa.Const) bool {
+		if k == nil || k.Value == nil {
+			return true
+		}
+		switch k.Value.Kind() {
+		case constant.Bool:
+			return !constant.BoolVal(k.Value)
+		case constant.String:
+			return constant.StringVal(k.Value) == ""
+		case constant.Int, constant.Float:
+			return constant.Sign(k.Value) == 0
+		}
+		return false
+	}
+	n := 0
+	for _, fn := range p.RepoFns {
+		if fn.Pkg != synPkg {
+			continue
+		}
+		ord := 0
+		ForEachInstr(fn, func(ins ssa.Instruction) {
+			st, ok := ins.(*ssa.Store)
+			if !ok {
+				return
+			}
+			fa, ok := st.Addr.(*ssa.FieldAddr)
+			if !ok {
+				return
+			}
+			ex, ok := st.Val.(*ssa.Extract)
+			if !ok || ex.Index != 0 {
+				return
+			}
+			call, ok := ex.Tuple.(*ssa.Call)
+			if !ok {
+				return
+			}
+			res := call.Call.Signature().Results()
+			if res.Len() != 2 {
+				return
+			}
+			if b, isB := res.At(1).Type().Underlying().(*types.Basic); !isB || b.Kind() != types.Bool {
+				return
+			}
+			// is the ok flag consulted anywhere?
+			okUsed := false
+			if okEx := extractOf(call, 1); okEx != nil && okEx.Referrers() != nil {
+				for _, ref := range *okEx.Referrers() {
+					if _, isDbg := ref.(*ssa.DebugRef); !isDbg {
+						okUsed = true
+					}
+				}
+			}
+			if okUsed {
+				return
+			}
+			n++
+			ord++
+			r.Fn(FnName(fn))
+			sto := structOf(fa.X.Type())
+			fname := "?"
+			if sto != nil {
+				fname = sto.Field(fa.Field).Name()
+			}
+			key := fmt.Sprintf("default@%s#%s", FnName(fn), fname)
+			// the default of that field: stored earlier here, or by the constructor whose result initialised the struct
+			var def *ssa.Const
+			base := fa.X
+			if al, isAl := base.(*ssa.Alloc); isAl && al.Referrers() != nil {
+				for _, ref := range *al.Referrers() {
+					switch u := ref.(type) {
+					case *ssa.Store:
+						if u.Addr == ssa.Value(al) {
+							if c, isCall := u.Val.(*ssa.Call); isCall {
+								if k, has := ctorDefaults(c.Call.StaticCallee())[fa.Field]; has {
+									def = k
+								}
+							}
+						}
+					case *ssa.FieldAddr:
+						if u.Field == fa.Field && u != fa && u.Referrers() != nil {
+							for _, r2 := range *u.Referrers() {
+								if s2, isSt := r2.(*ssa.Store); isSt && s2.Addr == ssa.Value(u) {
+									if k, isK := s2.Val.(*ssa.Const); isK && InstrDominates(s2, st) {
+										def = k
+									}
+								}
+							}
+						}
+					}
+				}
+			}
+			if fv, isFV := base.(*ssa.FreeVar); isFV {
+				// captured configuration: look at the enclosing function's initialisation of the captured cell
+				if b := bindingOf(fv); b != nil {
+					if al, isAl := b.(*ssa.Alloc); isAl && al.Referrers() != nil {
+						for _, ref := range *al.Referrers() {
+							if u, isSt := ref.(*ssa.Store); isSt && u.Addr == ssa.Value(al) {
+								if c, isCall := u.Val.(*ssa.Call); isCall {
+									if k, has := ctorDefaults(c.Call.StaticCallee())[fa.Field]; has {
+										def = k
+									}
+								}
+							}
+						}
+					}
+				}
+			}
+			r.Check(isZero(def), key, "the field's default is the zero value (an absent option changes nothing)", fmt.Sprintf("%s stores the value of a comma-ok lookup into %s without looking at ok, but the default of that field is %s: when the option is absent the default is silently replaced by the zero value", FnName(fn), fname, def), st.Pos())
+		})
+	}
+	if n == 0 {
+		r.Info("sites", "no comma-ok value stored with its flag discarded", 0)
+	}
+}
+
+func init() { register("C13", Rule{"R13d", ruleDefaultsSurviveAbsence}) }
